@@ -174,15 +174,15 @@ idle flushes and agent reads, with or without the immediate flush after `feed_fr
 duplicated or sent to another lane. -/
 theorem C14_read_feed_lane_gets_what_was_picked (c : Cfg) (ops : List Op) (l : Nat)
     (hl : c.known.contains l = true) :
-    (run c {} ops).laneStream l = reqsFor l (run c {} ops).picked :=
+    (run c {} ops).laneStream l = reqsFor c l (run c {} ops).picked :=
   (inv_run c ops {} (inv_init c)).lane l hl
 
 /-- **Per remote: exactly once, in the order sent.** The commands (and syncs) of remote `r` that lane `l` has been or
 is about to be given, followed by those still waiting in `r`'s channel, are exactly what `r` sent for `l`. -/
 theorem C14_read_feed_exactly_once_per_remote_in_order (c : Cfg) (ops : List Op) (r l : Nat)
     (hl : c.known.contains l = true) :
-    fromRemote r ((run c {} ops).laneStream l) ++ reqsOfInbox r l ((run c {} ops).inbox r)
-      = reqsOfInbox r l (msgsOf r (run c {} ops).sent) := by
+    fromRemote r ((run c {} ops).laneStream l) ++ reqsOfInbox c r l ((run c {} ops).inbox r)
+      = reqsOfInbox c r l (msgsOf r (run c {} ops).sent) := by
   have hi := inv_run c ops {} (inv_init c)
   rw [hi.lane l hl, fromRemote_reqsFor, ← reqsOfInbox_append, hi.remote r]
 
@@ -197,7 +197,7 @@ drained everything `r` sent for `l` has been read by the agent or sits in the la
 theorem C14_read_feed_all_forwarded_when_idle (c : Cfg) (ops : List Op) (r l : Nat)
     (hl : c.known.contains l = true) (hr : (run c {} (ops ++ [.idle])).inbox r = []) :
     fromRemote r (deliveredTo l (run c {} (ops ++ [.idle])).delivered ++ ((run c {} (ops ++ [.idle])).sender l).chan)
-      = reqsOfInbox r l (msgsOf r (run c {} (ops ++ [.idle])).sent) := by
+      = reqsOfInbox c r l (msgsOf r (run c {} (ops ++ [.idle])).sent) := by
   have hrun : run c {} (ops ++ [.idle]) = flushLane (run c {} ops) := by simp [run, List.foldl_append, step]
   have hb : ((run c {} (ops ++ [.idle])).sender l).buf = [] := by
     rw [hrun]; exact flushLane_buf (inv_run c ops {} (inv_init c)).disc l
@@ -293,7 +293,7 @@ theorem C14_command_lane_end_to_end (c : RF.Cfg) (ops : List RF.Op) (l : Nat) (h
     invoked (CL.run h {} evs).trace =
         (validCmds ((cmdsOf (deliveredTo l (RF.run c {} ops).delivered)).map (fun p => dec p.2))).flatMap h.expand
       ∧ ∀ r, fromRemote r (deliveredTo l (RF.run c {} ops).delivered)
-              <+: reqsOfInbox r l (msgsOf r (RF.run c {} ops).sent) := by
+              <+: reqsOfInbox c r l (msgsOf r (RF.run c {} ops).sent) := by
   refine ⟨by rw [C14_command_handler_exactly_once_in_order, hfeed], fun r => ?_⟩
   have hx := C14_read_feed_exactly_once_per_remote_in_order c ops r l hl
   simp only [St.laneStream, fromRemote_append, List.append_assoc] at hx
